@@ -181,6 +181,10 @@ func FindInsertionPoints(
 
 				// if we are adding to an existing branch
 				if len(newBranchSet) > 0 {
+					// an entry of another member type of a union or interface carries no id:
+					// there is nothing to stitch into it, the other entries still need their data
+					entryWithoutID := false
+
 					// add the path to the end of this for the entry we just added
 					for i, newBranch := range newBranchSet {
 						// if we are looking at the last thing in the insertion list
@@ -192,7 +196,8 @@ func FindInsertionPoints(
 							}
 
 							if id == nil {
-								return nil, nil
+								entryWithoutID = true
+								break
 							}
 
 							// add the id to the entry so that the executor can use it to form its query
@@ -201,6 +206,10 @@ func FindInsertionPoints(
 
 						// add the point for this entry in the list
 						newBranchSet[i] = append(newBranch, entryPoint)
+					}
+
+					if entryWithoutID {
+						continue
 					}
 				} else {
 					newBranchSet = append(newBranchSet, []string{entryPoint})
